@@ -226,82 +226,8 @@ func runC05(c *Ctx) {
 		c.viol("C05.R3", "anchor-lost:templ.SanitizeCSS", "", "templ.SanitizeCSS (exported) not found")
 	} else {
 		key := funcKey(tp, fd)
-		// every return that uses the value raw (not through the results of safehtml.SanitizeCSS) must be inside a branch
-		// that pins the value's type to SafeCSSProperty
-		okAll := true
-		why := ""
-		var valueParam types.Object
-		if len(fd.Type.Params.List) > 0 {
-			last := fd.Type.Params.List[len(fd.Type.Params.List)-1]
-			if len(last.Names) > 0 {
-				valueParam = tp.TypesInfo.Defs[last.Names[len(last.Names)-1]]
-			}
-		}
-		pinsType := func(is *ast.IfStmt) bool {
-			txt := types.ExprString(is.Cond)
-			if strings.HasPrefix(txt, "reflect.TypeOf(") && strings.Contains(txt, "== ") {
-				rhs := strings.TrimSpace(txt[strings.Index(txt, "== ")+3:])
-				if init := pkgVarInit(tp, rhs); init != nil && strings.Contains(types.ExprString(init), "SafeCSSProperty(") {
-					return true
-				}
-			}
-			if is.Init != nil {
-				if as, ok := is.Init.(*ast.AssignStmt); ok && len(as.Rhs) == 1 {
-					if ta, ok := as.Rhs[0].(*ast.TypeAssertExpr); ok && ta.Type != nil && strings.HasSuffix(types.ExprString(ta.Type), "SafeCSSProperty") && len(as.Lhs) == 2 && types.ExprString(is.Cond) == types.ExprString(as.Lhs[1]) {
-						return true
-					}
-				}
-			}
-			return false
-		}
-		nraw := 0
-		ast.Inspect(fd.Body, func(x ast.Node) bool {
-			ret, ok := x.(*ast.ReturnStmt)
-			if !ok || len(ret.Results) != 1 {
-				return true
-			}
-			raw := false
-			ast.Inspect(ret.Results[0], func(y ast.Node) bool {
-				if id, ok := y.(*ast.Ident); ok && valueParam != nil && tp.TypesInfo.ObjectOf(id) == valueParam {
-					raw = true
-				}
-				return true
-			})
-			if !raw {
-				return true
-			}
-			nraw++
-			guarded := false
-			ast.Inspect(fd.Body, func(y ast.Node) bool {
-				if is, ok := y.(*ast.IfStmt); ok && is.Body.Pos() <= ret.Pos() && ret.End() <= is.Body.End() && pinsType(is) {
-					guarded = true
-				}
-				if cc, ok := y.(*ast.CaseClause); ok && cc.Pos() <= ret.Pos() && ret.End() <= cc.End() && len(cc.List) == 1 && strings.HasSuffix(types.ExprString(cc.List[0]), "SafeCSSProperty") {
-					guarded = true
-				}
-				return true
-			})
-			if !guarded {
-				okAll, why = false, "a return uses the value unsanitised ("+types.ExprString(ret.Results[0])+") outside a branch that pins its type to SafeCSSProperty: every other named string type bypasses the sanitiser"
-			} else if !strings.Contains(types.ExprString(ret.Results[0]), "safehtml.SanitizeCSSProperty(") {
-				okAll, why = false, "the SafeCSSProperty bypass does not sanitise the property name"
-			}
-			return true
-		})
-		// the sanitising path exists and converts the value for safehtml.SanitizeCSS
-		usesSan := false
-		ast.Inspect(fd.Body, func(y ast.Node) bool {
-			if call, ok := y.(*ast.CallExpr); ok {
-				if fn := calleeOf(tp.TypesInfo, call); fn != nil && fullName(fn) == modPath+"/safehtml.SanitizeCSS" {
-					usesSan = true
-				}
-			}
-			return true
-		})
-		if !usesSan {
-			okAll, why = false, "templ.SanitizeCSS no longer calls safehtml.SanitizeCSS"
-		}
-		c.check(okAll, "C05.R3", key+"|bypass-guarded-by-type", c.pos(fd.Pos()), "unsanitised values pass only under reflect.TypeOf(value) == SafeCSSProperty; the name is sanitised on both paths",
+		okAll, why, _ := cssSanitiserReturns(c, tp, fd, 0)
+		c.check(okAll, "C05.R3", key+"|bypass-guarded-by-type", c.pos(fd.Pos()), "every return is computed from this call's arguments: unsanitised values pass only under reflect.TypeOf(value) == SafeCSSProperty, everything else through safehtml.SanitizeCSS; the name is sanitised on both paths",
 			"templ.SanitizeCSS: "+why)
 	}
 
@@ -825,4 +751,186 @@ func precedesInBlock(root *ast.BlockStmt, a *ast.IfStmt, b ast.Node) bool {
 		return true
 	})
 	return res
+}
+
+// cssSanitiserReturns checks every return of templ.SanitizeCSS (and of an in-package function it delegates to):
+// a return either uses the value raw inside a branch that pins its type to SafeCSSProperty (and sanitises the name),
+// or is computed by safehtml.SanitizeCSS, or is the result of a delegate for which the same holds. A return of
+// anything else — a value loaded from package-level state, for instance — is not computed from this call's
+// arguments and is reported.
+func cssSanitiserReturns(c *Ctx, tp *packages.Package, fd *ast.FuncDecl, depth int) (okAll bool, why string, usesSan bool) {
+	info := tp.TypesInfo
+	okAll = true
+	var valueParam types.Object
+	if len(fd.Type.Params.List) > 0 {
+		last := fd.Type.Params.List[len(fd.Type.Params.List)-1]
+		if len(last.Names) > 0 {
+			valueParam = info.Defs[last.Names[len(last.Names)-1]]
+		}
+	}
+	pinsType := func(is *ast.IfStmt) bool {
+		txt := types.ExprString(is.Cond)
+		if strings.HasPrefix(txt, "reflect.TypeOf(") && strings.Contains(txt, "== ") {
+			rhs := strings.TrimSpace(txt[strings.Index(txt, "== ")+3:])
+			if init := pkgVarInit(tp, rhs); init != nil && strings.Contains(types.ExprString(init), "SafeCSSProperty(") {
+				return true
+			}
+		}
+		if is.Init != nil {
+			if as, ok := is.Init.(*ast.AssignStmt); ok && len(as.Rhs) == 1 {
+				if ta, ok := as.Rhs[0].(*ast.TypeAssertExpr); ok && ta.Type != nil && strings.HasSuffix(types.ExprString(ta.Type), "SafeCSSProperty") && len(as.Lhs) == 2 && types.ExprString(is.Cond) == types.ExprString(as.Lhs[1]) {
+					return true
+				}
+			}
+		}
+		return false
+	}
+	usesValue := func(e ast.Node) bool {
+		raw := false
+		ast.Inspect(e, func(y ast.Node) bool {
+			if id, ok := y.(*ast.Ident); ok && valueParam != nil && info.ObjectOf(id) == valueParam {
+				raw = true
+			}
+			return true
+		})
+		return raw
+	}
+	callsSanitiser := func(e ast.Node) bool {
+		found := false
+		ast.Inspect(e, func(y ast.Node) bool {
+			if call, ok := y.(*ast.CallExpr); ok {
+				if fn := calleeOf(info, call); fn != nil && fullName(fn) == modPath+"/safehtml.SanitizeCSS" {
+					found = true
+				}
+			}
+			return true
+		})
+		return found
+	}
+	// classify an expression that is returned (directly or through local variables)
+	var classify func(e ast.Expr, at ast.Node, seen map[types.Object]bool) (string, string)
+	classify = func(e ast.Expr, at ast.Node, seen map[types.Object]bool) (string, string) {
+		e = ast.Unparen(e)
+		if tv, ok := info.Types[e]; ok && tv.Value != nil {
+			return "const", ""
+		}
+		if be, ok := e.(*ast.BinaryExpr); ok && be.Op == token.ADD && !usesValue(be) {
+			vx, dx := classify(be.X, at, seen)
+			vy, dy := classify(be.Y, at, seen)
+			for _, v := range []string{"bad", "foreign"} {
+				if vx == v {
+					return vx, dx
+				}
+				if vy == v {
+					return vy, dy
+				}
+			}
+			if vx == "const" && vy == "const" {
+				return "const", ""
+			}
+			return "sanitised", ""
+		}
+		if callsSanitiser(e) {
+			usesSan = true
+			return "sanitised", ""
+		}
+		if call, ok := e.(*ast.CallExpr); ok {
+			// conversion
+			if tv, ok := info.Types[call.Fun]; ok && tv.IsType() && len(call.Args) == 1 {
+				if !usesValue(call.Args[0]) {
+					return classify(call.Args[0], at, seen)
+				}
+			}
+			if fn := calleeOf(info, call); fn != nil && fn.Pkg() == tp.Types && depth < 2 {
+				if dfd := findFunc(tp, "", fn.Name()); dfd != nil && dfd != fd && usesValue(call) {
+					ok2, why2, san2 := cssSanitiserReturns(c, tp, dfd, depth+1)
+					if san2 {
+						usesSan = true
+					}
+					if !ok2 {
+						return "bad", "through " + fn.Name() + ": " + why2
+					}
+					return "delegated", ""
+				}
+			}
+		}
+		if usesValue(e) {
+			return "raw", ""
+		}
+		if id, ok := e.(*ast.Ident); ok {
+			ob := info.ObjectOf(id)
+			if ob != nil && !seen[ob] && ob.Parent() != tp.Types.Scope() && ob.Parent() != types.Universe {
+				seen[ob] = true
+				verdict, detail := "", ""
+				n := 0
+				ast.Inspect(fd.Body, func(y ast.Node) bool {
+					as, ok := y.(*ast.AssignStmt)
+					if !ok {
+						return true
+					}
+					for i, l := range as.Lhs {
+						if lid, ok := l.(*ast.Ident); ok && info.ObjectOf(lid) == ob {
+							n++
+							rhs := as.Rhs[0]
+							if len(as.Rhs) == len(as.Lhs) {
+								rhs = as.Rhs[i]
+							}
+							v, d := classify(rhs, as, seen)
+							if v == "raw" {
+								v, d = "bad", "the value is stored unsanitised in "+ob.Name()+" and returned later"
+							}
+							if verdict == "" || v == "bad" || v == "foreign" {
+								verdict, detail = v, d
+							}
+						}
+					}
+					return true
+				})
+				if n > 0 {
+					return verdict, detail
+				}
+			}
+		}
+		return "foreign", "`" + types.ExprString(e) + "` is not computed from this call's arguments by the sanitiser (for example a value taken from a cache that the trusted SafeCSSProperty path also fills: the same text then comes back unsanitised for an untrusted string type)"
+	}
+	nret := 0
+	ast.Inspect(fd.Body, func(x ast.Node) bool {
+		if _, isLit := x.(*ast.FuncLit); isLit {
+			return false
+		}
+		ret, ok := x.(*ast.ReturnStmt)
+		if !ok || len(ret.Results) != 1 {
+			return true
+		}
+		nret++
+		v, d := classify(ret.Results[0], ret, map[types.Object]bool{})
+		switch v {
+		case "raw":
+			guarded := false
+			ast.Inspect(fd.Body, func(y ast.Node) bool {
+				if is, ok := y.(*ast.IfStmt); ok && is.Body.Pos() <= ret.Pos() && ret.End() <= is.Body.End() && pinsType(is) {
+					guarded = true
+				}
+				if cc, ok := y.(*ast.CaseClause); ok && cc.Pos() <= ret.Pos() && ret.End() <= cc.End() && len(cc.List) == 1 && strings.HasSuffix(types.ExprString(cc.List[0]), "SafeCSSProperty") {
+					guarded = true
+				}
+				return true
+			})
+			if !guarded {
+				okAll, why = false, "a return uses the value unsanitised ("+types.ExprString(ret.Results[0])+") outside a branch that pins its type to SafeCSSProperty: every other named string type bypasses the sanitiser"
+			} else if !strings.Contains(types.ExprString(ret.Results[0]), "safehtml.SanitizeCSSProperty(") {
+				okAll, why = false, "the SafeCSSProperty bypass does not sanitise the property name"
+			}
+		case "bad", "foreign":
+			okAll, why = false, "return at "+c.pos(ret.Pos())+": "+d
+		}
+		return true
+	})
+	if nret == 0 {
+		okAll, why = false, fd.Name.Name+" has no return"
+	}
+	if depth == 0 && !usesSan && okAll {
+		okAll, why = false, "templ.SanitizeCSS no longer reaches safehtml.SanitizeCSS"
+	}
+	return
 }
